@@ -1,5 +1,5 @@
 (* C19 driver: scenario = flat list of ops (:M scope | :S.field args | :E.field args | :A.field args); see checks/C19.py.
-   Observation = ":c <half> :x <half>", half = <failures> <op|~> <text|~> <n> (<op> :<field> :<kind> <payload>)^n <k> (<op> <bytes>)^k *)
+   Observation = ":c <half> :x <half>", half = <failures> <crash hook runs> <op|~> <text|~> <n> (<op> :<field> :<kind> <payload>)^n <k> (<op> <bytes>)^k *)
 let name_of_string (s : string) : n list = List.init (String.length s) (fun i -> n_of_int (Char.code s.[i]))
 let is_sym t = String.length t > 0 && t.[0] = ':'
 let parse_ops (ts : string list) : op list =
@@ -30,7 +30,7 @@ let pcanon = function
   | CP (k, z) -> (match k with PVoid -> ":p " | PConst -> ":cp " | PFunc -> ":fp " | PMem -> ":mem " | PObj -> ":obj ") ^ pz z
 let phalf (h : half) =
   let (nf, fo, tx) = (match h.h_fail with None -> ("0", "~", "~") | Some (i, t) -> ("1", pn i, pbytes t)) in
-  String.concat " " ([nf; fo; tx; Printf.sprintf "%x" (List.length h.h_vals)]
+  String.concat " " ([nf; pn h.h_crash; fo; tx; Printf.sprintf "%x" (List.length h.h_vals)]
     @ List.map (fun v -> pn v.v_op ^ " :? " ^ pcanon v.v_canon) h.h_vals
     @ [Printf.sprintf "%x" (List.length h.h_outs)] @ List.map (fun (i, b) -> pn i ^ " " ^ pbytes b) h.h_outs)
 let run_line ts =
@@ -40,6 +40,7 @@ let run_line ts =
 (* failures and the op at which the test was left are one key: op + 2^20 * failures *)
 let parse_half (c : cur) : half =
   let nf = int_tok (next c) in
+  let crash = n_tok (next c) in
   let fo = next c in
   let tx = next c in
   let fail = if nf = 0 && fo = "~" then None
@@ -59,7 +60,7 @@ let parse_half (c : cur) : half =
       | _ -> raise (Bad ("value kind " ^ k))) in
     { v_op = i; v_canon = canon }) in
   let outs = counted c (fun c -> let i = n_tok (next c) in let b = bytes_tok (next c) in (i, b)) in
-  { h_fail = fail; h_vals = vals; h_outs = outs }
+  { h_fail = fail; h_crash = crash; h_vals = vals; h_outs = outs }
 let spec_line ts os =
   let ops = parse_ops ts in
   let c = { rest = os } in
